@@ -239,7 +239,13 @@ def c05(tier, seed, only=None):
 def c18(tier, seed, only=None):
     t0 = time.time()
     mons = [P + "AppendOnly"]
-    jobs = _filter(_persist_jobs(tier, mons, False), only)
+    jobs = _persist_jobs(tier, mons, False)
+    for j in jobs:
+        j["cfg"]["render"] = True
+        if j["cfg"].get("rerun"):
+            j["cfg"]["rerun_with_inflight"] = True
+            j["cfg"]["dev"] = j["cfg"]["dev"] + 1
+    jobs = _filter(jobs, only)
     results = runner.run_jobs(jobs, seed=seed)
     rule = (
         "temporal invariant on every explored transition pre -> post: contexts/routes/sequence are "
@@ -447,12 +453,16 @@ def c17(tier, seed, only=None):
         if gen.is_huge(s):
             cfg["dev"] = 2 if tier == "quick" else 3
         jobs.append(job(s, cfg, mons))
-        if tier != "quick":
+        if tier != "quick" or (not gen.is_big(s) and s.family == "F2"):
             cfg2 = dict(cfg)
             cfg2["rerun_outcomes"] = None
             cfg2["rerun"] = 2
-            cfg2["dev"] = 4
+            cfg2["dev"] = 4 if tier == "quick" else 5
             jobs.append(job(s, cfg2, mons))
+        if not gen.is_big(s):
+            # inadmissible-request probes also in paused / pausing / canceling states
+            jobs.append(job(s, dict(rerun=1, rerun_mode="failed", pause=1, resume=1, cancel=1, horizon=70,
+                                    dev=3 if tier == "quick" else 4), mons))
     jobs = _filter(jobs, only)
     results = runner.run_jobs(jobs, seed=seed)
     rule = (
